@@ -1,39 +1,51 @@
-"""Deterministic replay scheduler for REAL threads (C20; see DESIGN 5.4).
+"""Deterministic replay scheduler for REAL threads (C20).
 
 Every participating thread is a real `threading.Thread` running real CherryPy code.  A managed
-thread executes only while it holds the baton; it hands the baton back at every *yield point*:
+thread executes only while it holds the baton; it hands the baton back at every *yield point*.
+Yield points are defined by WHAT the thread is about to do, never by source lines:
 
-  * a `sys.settrace` 'line' event inside one of the anchored code objects (`codes`) - the thread
-    stops BEFORE executing that line; the label of the stop is `(function name, line offset from
-    the `def` line)`; with `opcodes=True` the thread stops before every BYTECODE instead
-    (a `sys.monitoring` INSTRUCTION callback), which is used for oracle-only runs;
-  * the 'call' event of an *entry* code object (`BackgroundTask.run`) in a thread the real code
-    created itself: the thread registers as worker `w<n>` and is held before its first instruction;
-  * an instrumented blocking primitive (`Thread.join` on a managed thread): the caller is marked
-    blocked and not scheduled until the target has finished, so the harness never deadlocks.
+  * a read or write of a shared attribute (`BackgroundTask.running`, `Monitor.thread`, `Bus.state`,
+    `Bus.execv`, rebinding of `ThreadManager.threads`) - data descriptors installed on the live
+    classes by `Patches` for the duration of a run;
+  * an operation on the shared registry dict (`SharedDict`: `in`, `len`, `d[k] = v`, `pop`, `get`,
+    `clear`, one `next()` of a Python-level iteration, an atomic snapshot `list(d)`);
+  * a primitive call: `time.sleep` (logical clock), `Thread.start`, `Thread.join`, the monitor
+    callback, a bus listener (`publish`), `threading.enumerate`, `_do_execv`, `os._exit` - shims
+    installed by the runners of `c20.py`;
+  * the first instruction of a thread created by the code under test (`Thread.start` of a managed
+    thread wraps the new thread's `run`; it is worker `w<n>`, held before its first instruction);
+  * optionally (`opcodes=True`, oracle-only runs) every BYTECODE of the anchored code objects
+    (`sys.monitoring` INSTRUCTION events).
 
-`step(tid)` lets thread `tid` run to its next yield point and returns its new label.  A schedule is
-just a list of thread ids; a run is exactly replayable.  Nothing here sleeps; every wait has a
-timeout that raises `SchedError` (a harness error, never a property violation).
+A rewrite of the anchored code that performs the same accesses in the same order is therefore
+indistinguishable, whatever its line structure.  `step(tid)` lets the thread execute the access it
+is parked in front of plus the thread-local code up to its next access.  `Thread.join` never
+blocks for real: the joining thread is not schedulable until the target has left `run`.  Nothing
+sleeps; every hand-over has a timeout.  A managed thread that does not reach its next yield point
+within `TIMEOUT` seconds hangs INSIDE the code under test (all blocking primitives are virtual):
+that is reported as `Hang` (an observation the oracle judges), not as a harness error.
 """
+import dis
 import sys
 import threading
 import _thread
 
 TIMEOUT = 20.0
 MON_TOOL = 4          # sys.monitoring tool id used in bytecode mode
-
-
-class SchedError(Exception):
-    pass
-
-
 KILL = 'c20-sched-kill'
 
 
-def _Kill():
-    """Raised inside a managed thread at tear-down (exactly SystemExit: threading stays silent)."""
-    return SystemExit(KILL)
+class SchedError(Exception):
+    """the machinery is broken (harness error)"""
+
+
+class Hang(Exception):
+    """the code under test did not reach its next yield point"""
+
+    def __init__(self, tid, pending):
+        Exception.__init__(self, 'thread %s did not return from %r within %.0f s' % (tid, pending, TIMEOUT))
+        self.tid = tid
+        self.pending = pending
 
 
 def is_kill(e):
@@ -41,7 +53,6 @@ def is_kill(e):
 
 
 def _held_lock():
-    """A raw lock used as a binary semaphore (C level: a hand-over costs a few microseconds)."""
     lk = _thread.allocate_lock()
     lk.acquire()
     return lk
@@ -52,25 +63,23 @@ class Rec:
         self.tid = tid
         self.kind = kind            # 'ctl' | 'worker'
         self.go = _held_lock()       # released by the scheduler to grant one turn
-        self.at = ('new', 0)        # label of the yield point the thread is stopped at
+        self.pending = ('begin',)   # label of the access the thread is parked in front of
         self.done = False
-        self.blocked_on = None      # Rec of the thread this one joins
-        self.exc = None             # exception that ended a ctl thread
+        self.blocked_on = None      # object with a `.done` attribute this thread joins
+        self.exc = None             # exception that ended the thread
         self.thread = None          # the real Thread object
         self.registered = threading.Event()
         self.kill = False
+        self.hung = False
         self.steps = 0
         self.result = None
+        self.log = []               # labels of the accesses executed (diagnostics)
 
 
 class Sched:
-    def __init__(self, codes, entry_codes=(), opcodes=False):
-        """codes: code objects whose lines are yield points; entry_codes: code objects whose
-        'call' in an unknown thread registers that thread as a worker; opcodes: yield before every
-        BYTECODE of the anchored functions instead of before every line."""
-        self.opcodes = opcodes
-        self.codes = set(codes)
-        self.entry = set(entry_codes)
+    def __init__(self, op_codes=()):
+        """op_codes: code objects pre-empted before every bytecode (oracle-only runs)."""
+        self.op_codes = list(op_codes)
         self.recs = {}              # tid -> Rec
         self.by_ident = {}          # thread ident -> Rec
         self.order = []             # tids in creation order
@@ -79,9 +88,8 @@ class Sched:
         self._real_start = None
         self._real_join = None
         self._installed = False
-        self.current = None
         self.killed = False
-        self.on_worker = None       # callback(rec, thread) when a worker registers
+        self.on_worker = None       # callback(rec, thread) when a worker has been started
         self.before_start = None    # callback(thread) just before a worker thread is really started
 
     # ---- installation ---------------------------------------------------------------------
@@ -94,64 +102,73 @@ class Sched:
         sched = self
 
         def start(thr):
-            code = getattr(getattr(type(thr), 'run', None), '__code__', None)
-            if code in sched.entry and sched.before_start is not None:
+            me = sched.me()
+            if me is None or sched.killed:
+                return sched._real_start(thr)
+            sched.yield_point(('start',))
+            if sched.before_start is not None:
                 sched.before_start(thr)
-            sched._real_start(thr)
-            if code in sched.entry and sched._me() is not None and not sched.killed:
-                rec = None
-                # the new thread registers itself at the 'call' event of run()
-                for _ in range(int(TIMEOUT * 100)):
-                    rec = sched._find_thread(thr)
-                    if rec is not None and rec.registered.wait(0.01):
-                        break
-                    if not thr.is_alive() and sched._find_thread(thr) is None:
-                        # thread died before reaching run(): nothing to manage
-                        return
-                else:
-                    raise SchedError('started worker never reached run()')
+            sched.nworkers += 1
+            rec = Rec('w%d' % sched.nworkers, 'worker')
+            rec.thread = thr
+            inner = thr.run
+
+            def run():
+                sched.by_ident[_thread.get_ident()] = rec
+                rec.registered.set()
+                rec.go.acquire()            # wait for the first turn (the starter keeps the baton)
+                try:
+                    if not rec.kill:
+                        inner()
+                except BaseException as e:      # noqa - recorded, judged by the oracle
+                    if not is_kill(e):
+                        rec.exc = e
+                finally:
+                    rec.done = True
+                    rec.pending = ('done',)
+                    if not rec.kill:
+                        sched.back.release()
+
+            thr.run = run
+            sched.recs[rec.tid] = rec
+            sched.order.append(rec.tid)
+            try:
+                sched._real_start(thr)
+            except BaseException:
+                del sched.recs[rec.tid]
+                sched.order.remove(rec.tid)
+                sched.nworkers -= 1
+                raise
+            if not rec.registered.wait(TIMEOUT):
+                raise SchedError('started worker never reached run()')
+            if sched.on_worker is not None:
+                sched.on_worker(rec, thr)
 
         def join(thr, timeout=None):
-            me = sched._me()
-            target = sched._find_thread(thr)
-            if me is None or target is None:
-                return sched._real_join(thr, timeout)
-            if thr is threading.current_thread():
-                return sched._real_join(thr, timeout)      # raises RuntimeError as the real one does
-            while not target.done:
-                if me.kill:
-                    raise _Kill()       # ordinary code, not a trace function: always safe
-                me.blocked_on = target
-                sched._yield(me, me.at)
-            me.blocked_on = None
+            me = sched.me()
+            target = sched.find_thread(thr)
+            if me is None or target is None or thr is threading.current_thread():
+                return sched._real_join(thr, timeout)   # (self-join raises RuntimeError as the real one)
+            sched.wait_for(target, ('join',))
             sched._real_join(thr, TIMEOUT)
             if thr.is_alive():
                 raise SchedError('finished worker did not terminate')
 
         threading.Thread.start = start
         threading.Thread.join = join
-        threading.settrace(self._global_trace)
-        if self.opcodes:
-            # bytecode granularity through sys.monitoring (PEP 669): an INSTRUCTION callback per anchored
-            # code object.  (`frame.f_trace_opcodes` misses the first frame of a code object on 3.12.)
+        if self.op_codes:
             mon = sys.monitoring
             mon.use_tool_id(MON_TOOL, 'c20_sched')
             mon.register_callback(MON_TOOL, mon.events.INSTRUCTION, self._on_instruction)
-            self._linemap = {}
-            for code in self.codes:
-                self._linemap[code] = {}
-                for start_off, end_off, ln in code.co_lines():
-                    for off in range(start_off, end_off, 2):
-                        self._linemap[code][off] = -1 if ln is None else ln - code.co_firstlineno
+            for code in self.op_codes:
                 mon.set_local_events(MON_TOOL, code, mon.events.INSTRUCTION)
 
     def uninstall(self):
         if not self._installed:
             return
-        threading.settrace(None)
-        if self.opcodes:
+        if self.op_codes:
             mon = sys.monitoring
-            for code in self.codes:
+            for code in self.op_codes:
                 mon.set_local_events(MON_TOOL, code, 0)
             mon.register_callback(MON_TOOL, mon.events.INSTRUCTION, None)
             mon.free_tool_id(MON_TOOL)
@@ -160,115 +177,82 @@ class Sched:
         self._installed = False
 
     # ---- thread side ----------------------------------------------------------------------
-    def _me(self):
-        rec = self.by_ident.get(threading.get_ident())
+    def me(self):
+        rec = self.by_ident.get(_thread.get_ident())
         if rec is not None and rec.thread is not threading.current_thread():
             return None             # the OS re-used the ident of a finished managed thread
         return rec
 
-    def _find_thread(self, thr):
+    def find_thread(self, thr):
         for r in list(self.recs.values()):
             if r.thread is thr:
                 return r
         return None
 
-    def _yield(self, rec, label):
-        if rec.kill and self.opcodes:
-            return                  # torn down cooperatively: the thread runs free to its end
-        rec.at = label
+    def yield_point(self, label, quiet=False):
+        """Called by a managed thread in front of a shared access / primitive call.  `quiet`: never
+        raise (bytecode events: raising from a monitoring callback can crash CPython 3.12)."""
+        rec = self.me()
+        if rec is None:
+            return None
+        if rec.kill:
+            if quiet:
+                return None
+            raise SystemExit(KILL)
+        rec.pending = label
         self.back.release()
         rec.go.acquire()
-        if rec.kill and not self.opcodes:
-            raise _Kill()
+        if rec.kill and not quiet:
+            raise SystemExit(KILL)
+        rec.log.append(label)
+        return rec
+
+    def wait_for(self, target, label):
+        """A blocking primitive: the calling thread is not schedulable until `target.done`."""
+        me = self.me()
+        if me is None:
+            return
+        me.blocked_on = target
+        try:
+            self.yield_point(label)
+            while not target.done:      # only when the controller stepped a blocked thread by force
+                self.yield_point(label)
+        finally:
+            me.blocked_on = None
 
     def _on_instruction(self, code, offset):
-        rec = self._me()
-        if rec is None or rec.kill:
-            return None
-        self._yield(rec, (code.co_qualname, self._linemap.get(code, {}).get(offset, -1)))
+        self.yield_point(('op', code.co_qualname), quiet=True)
         return None
-
-    def _global_trace(self, frame, event, arg):
-        if event != 'call':
-            return None
-        code = frame.f_code
-        if code not in self.codes:
-            return None
-        rec = self._me()
-        if rec is None:
-            if code not in self.entry or self.killed:
-                return None
-            # a thread created by the code under test: becomes worker w<n>, held before its first line
-            thr = threading.current_thread()
-            self.nworkers += 1
-            rec = Rec('w%d' % self.nworkers, 'worker')
-            rec.thread = thr
-            rec.at = (code.co_qualname, 0)
-            self.recs[rec.tid] = rec
-            self.order.append(rec.tid)
-            self.by_ident[threading.get_ident()] = rec
-            if self.on_worker:
-                self.on_worker(rec, thr)
-            rec.registered.set()
-            rec.go.acquire()            # wait for the first turn (the starter keeps the baton)
-            if rec.kill:
-                if self.opcodes:
-                    return None
-                raise _Kill()
-        return self._local_trace
-
-    def _local_trace(self, frame, event, arg):
-        rec = self._me()
-        if rec is None:
-            return None
-        code = frame.f_code
-        if event == 'line' and not self.opcodes:
-            ln = frame.f_lineno          # None for bytecodes without a line (exception clean-up)
-            self._yield(rec, (code.co_qualname, -1 if ln is None else ln - code.co_firstlineno))
-        elif event == 'return' and rec.kind == 'worker' and code in self.entry and not rec.done:
-            # run() is left (normally or by an exception): the worker is finished
-            self._worker_finished(rec)
-            return None
-        return self._local_trace
-
-    def _worker_finished(self, rec):
-        rec.done = True
-        rec.at = ('done', 0)
-        if not rec.kill:
-            self.back.release()
 
     # ---- controller side ------------------------------------------------------------------
     def spawn(self, tid, fn):
-        """Create a managed controller thread running fn(); it is held before fn's first yield."""
+        """Create a managed controller thread running fn(); it is held before fn's first access."""
         rec = Rec(tid, 'ctl')
         self.recs[tid] = rec
         self.order.append(tid)
         sched = self
 
         def body():
-            sched.by_ident[threading.get_ident()] = rec
+            sched.by_ident[_thread.get_ident()] = rec
             rec.registered.set()
             rec.go.acquire()
             try:
                 if rec.kill:
                     return
-                sys.settrace(sched._global_trace)
-                try:
-                    rec.result = fn()
-                finally:
-                    sys.settrace(None)
+                rec.result = fn()
             except BaseException as e:      # noqa - recorded, classified by the caller
                 if is_kill(e):
                     return
                 rec.exc = e
-            rec.done = True
-            rec.at = ('done', 0)
-            if not rec.kill:
-                sched.back.release()
+            finally:
+                rec.done = True
+                rec.pending = ('done',)
+                if not rec.kill:
+                    sched.back.release()
 
         t = threading.Thread(target=body, name='c20-' + tid, daemon=True)
         rec.thread = t
-        self._real_start(t) if self._installed else t.start()
+        (self._real_start or threading.Thread.start)(t)
         if not rec.registered.wait(TIMEOUT):
             raise SchedError('controller thread did not start')
         return rec
@@ -277,7 +261,7 @@ class Sched:
         out = []
         for tid in self.order:
             r = self.recs[tid]
-            if r.done:
+            if r.done or r.hung:
                 continue
             if r.blocked_on is not None and not r.blocked_on.done:
                 continue
@@ -289,30 +273,237 @@ class Sched:
         if rec.done:
             raise SchedError('step on finished thread ' + tid)
         rec.steps += 1
-        self.current = tid
+        label = rec.pending
         rec.go.release()
         if not self.back.acquire(timeout=TIMEOUT):
-            raise SchedError('thread %s did not yield within %.0fs at %r' % (tid, TIMEOUT, rec.at))
-        self.current = None
-        # a worker whose run() returned: the thread ends without another yield; detect via hook below
-        return rec.at
+            rec.hung = True
+            raise Hang(tid, label)
+        return label
 
     def kill_all(self):
-        """Tear-down.  Line mode: every managed thread raises SystemExit at its current yield point.
-        Bytecode mode: raising from an 'opcode' trace event can crash CPython 3.12, so the threads
-        are released to run free instead; their endless loops end because the caller has made the
-        logical clock's sleep() raise SystemExit (ordinary code)."""
+        """Tear-down: every managed thread raises SystemExit at its next (or current) yield point; in
+        bytecode mode the instruction events stop yielding and the threads run on to such a point."""
         self.killed = True
         for r in list(self.recs.values()):
             r.kill = True
-        for r in self.recs.values():
+        for r in list(self.recs.values()):
             if not r.done:
                 try:
                     r.go.release()
                 except RuntimeError:
                     pass
-        for r in self.recs.values():
-            if r.thread is not None and r.thread.ident is not None:
+        for r in list(self.recs.values()):
+            if r.thread is not None and r.thread.ident is not None and not r.hung:
                 (self._real_join or threading.Thread.join)(r.thread, TIMEOUT)
                 if r.thread.is_alive():
                     raise SchedError('thread %s survived tear-down' % r.tid)
+
+
+# ------------------------------------------------------------------------------------------------
+# instrumented shared state (harness side only; nothing in the repository is edited)
+# ------------------------------------------------------------------------------------------------
+_cur = [None]       # hooks of the run in progress: .sched, .on_write(obj, name, value) -> value
+
+
+def current_sched():
+    h = _cur[0]
+    return None if h is None else h.sched
+
+
+def ypoint(label):
+    h = _cur[0]
+    if h is not None:
+        h.sched.yield_point(label)
+
+
+_MISSING = object()
+
+
+class Patches:
+    """Data descriptors on the LIVE classes: every read / write of the attribute by a managed thread
+    is a yield point.  The value stays where it always was (the instance `__dict__`), so objects
+    created before or used after the patch behave as ever."""
+
+    def __init__(self):
+        self.saved = []
+
+    def shared_attr(self, cls, name, reads=True):
+        """reads=False: only (re)binding the attribute is a yield point (the object it names is a proxy)"""
+        old = cls.__dict__.get(name, _MISSING)
+        default = _MISSING
+        for k in cls.__mro__:
+            if name in k.__dict__ and not isinstance(k.__dict__[name], property):
+                default = k.__dict__[name]
+                break
+
+        def get(obj):
+            if reads:
+                ypoint(('r', name))
+            v = obj.__dict__.get(name, default)
+            if v is _MISSING:
+                raise AttributeError(name)
+            return v
+
+        def set_(obj, value):
+            ypoint(('w', name))
+            h = _cur[0]
+            if h is not None:
+                value = h.on_write(obj, name, value)
+            obj.__dict__[name] = value
+
+        def del_(obj):
+            ypoint(('w', name))
+            try:
+                del obj.__dict__[name]
+            except KeyError:
+                raise AttributeError(name)
+
+        setattr(cls, name, property(get, set_, del_))
+        self.saved.append((cls, name, old))
+
+    def restore(self):
+        for cls, name, old in reversed(self.saved):
+            if old is _MISSING:
+                try:
+                    delattr(cls, name)
+                except AttributeError:
+                    pass
+            else:
+                setattr(cls, name, old)
+        self.saved = []
+
+
+def _python_level_loop(frame):
+    """Is the caller iterating with a Python-level `for` (GET_ITER in its own bytecode: other threads can
+    run between two items), or is a C-level consumer (`list(d)`, `sorted(d)`, `tuple(d)`: atomic under the
+    GIL) asking for the iterator?"""
+    try:
+        op = dis.opname[frame.f_code.co_code[frame.f_lasti]]
+    except Exception:       # noqa
+        return False
+    if op.startswith('INSTRUMENTED_'):
+        op = op[len('INSTRUMENTED_'):]
+    return op in ('GET_ITER', 'FOR_ITER')
+
+
+class _View:
+    def __init__(self, d, kind):
+        self.d, self.kind = d, kind
+
+    def _real(self):
+        return getattr(dict, self.kind)(self.d)
+
+    def __iter__(self):
+        if _python_level_loop(sys._getframe(1)):
+            return self.d._live(lambda: iter(self._real()))
+        return self.d._snapshot(self._real)
+
+    def __len__(self):
+        self.d._y('len')
+        return dict.__len__(self.d)
+
+    def __contains__(self, x):
+        self.d._y('in')
+        return x in self._real()
+
+
+class SharedDict(dict):
+    """`ThreadManager.threads`: every single dict operation is a yield point (and atomic, as under the GIL)."""
+
+    def _y(self, op):
+        ypoint(('d', op))
+
+    def _live(self, make_iter):
+        # CPython does not switch threads between GET_ITER and the first FOR_ITER: the real iterator
+        # (which remembers the size of the dict) is created together with the first next()
+        it = None
+        while True:
+            self._y('next')
+            if it is None:
+                it = make_iter()
+            try:
+                v = next(it)        # the REAL iterator: RuntimeError when the dict changed size
+            except StopIteration:
+                return
+            yield v
+
+    def __contains__(self, k):
+        self._y('in')
+        return dict.__contains__(self, k)
+
+    def __getitem__(self, k):
+        self._y('get')
+        return dict.__getitem__(self, k)
+
+    def get(self, k, default=None):
+        self._y('get')
+        return dict.get(self, k, default)
+
+    def __len__(self):
+        # `list(d)` asks for the iterator (the snapshot above) and then for a length hint, all inside one
+        # C call that no other thread can interrupt: that second question is no yield point
+        if self._snap_mark is None or self._snap_mark != self._mark():
+            self._y('len')
+        self._snap_mark = None
+        return dict.__len__(self)
+
+    def _mark(self):
+        h = _cur[0]
+        rec = None if h is None else h.sched.me()
+        return None if rec is None else (rec.tid, rec.steps)
+
+    def _snapshot(self, what):
+        self._y('snap')
+        self._snap_mark = self._mark()
+        return iter(list(what()))
+
+    _snap_mark = None
+
+    def __setitem__(self, k, v):
+        self._y('set')
+        return dict.__setitem__(self, k, v)
+
+    def setdefault(self, k, default=None):
+        self._y('set')
+        return dict.setdefault(self, k, default)
+
+    def update(self, *a, **kw):
+        self._y('set')
+        return dict.update(self, *a, **kw)
+
+    def __delitem__(self, k):
+        self._y('pop')
+        return dict.__delitem__(self, k)
+
+    def pop(self, k, *default):
+        self._y('pop')
+        return dict.pop(self, k, *default)
+
+    def popitem(self):
+        self._y('pop')
+        return dict.popitem(self)
+
+    def clear(self):
+        self._y('clear')
+        return dict.clear(self)
+
+    def copy(self):
+        self._y('snap')
+        return dict(dict.items(self))
+
+    def __iter__(self):
+        if _python_level_loop(sys._getframe(1)):
+            return self._live(lambda: dict.__iter__(self))
+        return self._snapshot(lambda: dict.keys(self))
+
+    def keys(self):
+        return _View(self, 'keys')
+
+    def values(self):
+        return _View(self, 'values')
+
+    def items(self):
+        return _View(self, 'items')
+
+    def raw_items(self):
+        return list(dict.items(self))
